@@ -6,6 +6,13 @@ stored data, dimension descriptors, containers, links, creation times) compared 
 import file_common
 
 def run(chk, replay=None):
+    if replay is not None and replay.get('m') == 'time':
+        import vcheck
+        rp = vcheck.Replayer(vcheck.ensure_build('plain'), seed=chk.seed)
+        v = rp.single(replay); chk.judged(replay)
+        if v.get('v') not in ('ok', 'unjudgeable'):
+            chk.disagreement(replay, v, rp)
+        return
     if replay is not None and replay.get('m') == 'trace':
         return file_common.run_traces(chk, lambda e: e['a'] == 'Open', 1, 0, replay=replay)
     t = 't' if chk.thorough else 'q'
@@ -16,6 +23,14 @@ def run(chk, replay=None):
                 'kinds (BFS exhaustive within the bounds) plus Open steps of random behaviours over the whole vocabulary (9 creations, nesting); '
                 'full observation compared after reopen in rw and ro mode')
     file_common.run_file_check(chk, cfgs, sims, judge=judge, replay=replay, opts={'ignore_handles': True, 'touch_retained': True},  coverage=['Open', 'pre:Close', 'pre:SetAttr', 'pre:AppendDim', 'pre:AddLink', 'pre:SetOne', 'pre:Delete'])
+    # creation times (and updated_at) across reopen: NixTime.tla, every Reopen transition, entity kinds in rotation
+    import vcheck
+    rpt = vcheck.Replayer(vcheck.ensure_build('plain'), seed=chk.seed, chunk=60)
+    runt = vcheck.TlcRun('NixTime', 'MC_NixTime_%s.cfg' % ('t' if chk.thorough else 'q'), workers=4, coverage=False)
+    recs, verdicts = rpt.run(r for r in runt if r['step']['a'] == 'Reopen')
+    runt.require_ok()
+    chk.note_tlc(runt)
+    chk.absorb(recs, verdicts, rpt)
     # direction B: random API programs recorded from the real library, validated against NixFileTrace.tla
     file_common.run_traces(chk, lambda e: e['a'] == 'Open', 24 if chk.thorough else 6, 1500 if chk.thorough else 400)
     chk.exhaustive = False
